@@ -36,7 +36,7 @@ M = [
  ("c04-sid-lt-32", ["C04"], "src/tls_handshake.rs", "pub fn parse_tls_handshake_client_hello(i: &[u8]) -> IResult<&[u8], TlsClientHelloContents> {\n    let (i, version) = be_u16(i)?;\n    let (i, random) = take(32usize)(i)?;\n    let (i, sidlen) = verify(be_u8, |&n| n <= 32)(i)?;", "pub fn parse_tls_handshake_client_hello(i: &[u8]) -> IResult<&[u8], TlsClientHelloContents> {\n    let (i, version) = be_u16(i)?;\n    let (i, random) = take(32usize)(i)?;\n    let (i, sidlen) = verify(be_u8, |&n| n < 32)(i)?;"),
  ("c04-sid-check-removed-server", ["C04"], "src/tls_handshake.rs", ") -> IResult<&[u8], TlsServerHelloContents> {\n    let (i, version) = be_u16(i)?;\n    let (i, random) = take(32usize)(i)?;\n    let (i, sidlen) = verify(be_u8, |&n| n <= 32)(i)?;", ") -> IResult<&[u8], TlsServerHelloContents> {\n    let (i, version) = be_u16(i)?;\n    let (i, random) = take(32usize)(i)?;\n    let (i, sidlen) = be_u8(i)?;"),
  ("c04-ext-block-mandatory", ["C04"], "src/tls_handshake.rs", "    let (i, comp) = parse_compressions_algs(i, comp_len as usize)?;\n    let (i, ext) = opt(complete(length_data(be_u16)))(i)?;\n    let content = TlsClientHelloContents::new(", "    let (i, comp) = parse_compressions_algs(i, comp_len as usize)?;\n    let (i, ext) = opt(length_data(be_u16))(i)?;\n    let content = TlsClientHelloContents::new("),
- ("c04-sslv3-with-ext", ["C04"], "src/tls_handshake.rs", "        0x0300 => parse_tls_handshake_msg_server_hello_tlsv12::<false>(i),", "        0x0300 => parse_tls_handshake_msg_server_hello_tlsv12::<true>(i),"),
+ ("c04-sslv3-with-ext", ["C04", "C09"], "src/tls_handshake.rs", "        0x0300 => parse_tls_handshake_msg_server_hello_tlsv12::<false>(i),", "        0x0300 => parse_tls_handshake_msg_server_hello_tlsv12::<true>(i),"),
  ("c04-serverhello-accepts-0304", ["C04"], "src/tls_handshake.rs", "        0x7f12 => parse_tls_handshake_msg_server_hello_tlsv13draft18(i),\n        0x0303 =>", "        0x7f12 => parse_tls_handshake_msg_server_hello_tlsv13draft18(i),\n        0x0304 => parse_tls_handshake_msg_server_hello_tlsv12::<true>(i),\n        0x0303 =>"),
  ("c04-keyupdate-u16", ["C04"], "src/tls_handshake.rs", "    map(be_u8, TlsMessageHandshake::KeyUpdate)(i)", "    map(be_u16, |x| TlsMessageHandshake::KeyUpdate(x as u8))(i)"),
  # ---- C05
